@@ -1,12 +1,14 @@
-"""C07 helpers: ASGI BoundedStream path obligations (R4/R5) and lazy wrapping (R6)."""
+"""C07 helpers: ASGI BoundedStream path obligations (R4/R5), lazy wrapping (R6) and the
+look-through of helper methods / properties used by the WSGI rules (R2/R3)."""
 
 from __future__ import annotations
 
 import ast
+from typing import List
 
 from .. import flow
 from ..cfg import cfg_of
-from ..linexpr import Env, Lin, NONE, Seq, fresh, local_edges, loop_heads, paths_from, run_steps, segments
+from ..linexpr import Env, Konst, Lin, NONE, Seq, fresh, local_edges, loop_heads, paths_from, run_steps, segments
 from ..model import AnchorError, Class, Func, UnknownIdiom, dotted, short, unparse
 from .common import ancestors, enclosing_map, strip_await, walk_self
 
@@ -521,3 +523,201 @@ def lazy_wrapping(run):
     rets = [r for r in walk_self(alias.node) if isinstance(r, ast.Return)]
     run.check(bool(rets) and all(r.value is not None and dotted(r.value) == 'self.stream' for r in rets),
               'ASGI: bounded_stream is an alias of the memoised stream', alias, rets[0] if rets else alias.name)
+
+
+# ---------------------------------------------------------------------------
+# R2/R3: looking through helper methods / properties of the wrapper class
+# ---------------------------------------------------------------------------
+
+_BOOLISH = (ast.Compare, ast.BoolOp)
+
+
+def _is_boolish(e):
+    return isinstance(e, _BOOLISH) or (isinstance(e, ast.UnaryOp) and isinstance(e.op, ast.Not))
+
+
+def unconditional_subexprs(e):
+    """Sub-expressions of `e` that are evaluated whenever `e` is, innermost first
+    (nothing behind a short-circuit, a conditional expression, a lambda or a comprehension)."""
+    if isinstance(e, (ast.Lambda, ast.GeneratorExp, ast.ListComp, ast.SetComp, ast.DictComp)):
+        return
+    if isinstance(e, ast.BoolOp):
+        yield from unconditional_subexprs(e.values[0])
+    elif isinstance(e, ast.IfExp):
+        yield from unconditional_subexprs(e.test)
+    else:
+        for c in ast.iter_child_nodes(e):
+            if isinstance(c, (ast.expr, ast.keyword, ast.stmt)):
+                yield from unconditional_subexprs(c)
+    yield e
+
+
+class Inliner:
+    """Looks through `self.helper(args)` and `self.prop` when the callee is a loop-free method / property of the
+    wrapper class that `accept`s: the callee's acyclic paths are executed in the caller's abstract state (arguments
+    bound to the parameters, one fork per feasible branch outcome) and its return value replaces the call.  At most
+    `max_depth` levels; whatever cannot be looked through keeps the caller's default treatment (an unknown value)."""
+
+    def __init__(self, project, cls, accept, max_depth=2):
+        self.p = project
+        self.cls = cls
+        self.accept = accept            # Func -> bool: may this method be looked through at all?
+        self.max_depth = max_depth
+        self._ok = {}
+        self.used = set()
+
+    # -- which callees
+    def _inlinable(self, h: Func) -> bool:
+        if h.qual not in self._ok:
+            a = h.node.args
+            ok = (not h.is_async and not a.vararg and not a.kwarg and not a.kwonlyargs and not a.posonlyargs
+                  and bool(a.args) and a.args[0].arg == 'self' and not h.is_setter()
+                  and not any(isinstance(x, (ast.Yield, ast.YieldFrom, ast.Await, ast.While, ast.For, ast.AsyncFor, ast.Try, ast.With,
+                                             ast.AsyncWith, ast.Global, ast.Nonlocal, ast.Delete)) for x in walk_self(h.node))
+                  and all(d == 'property' for d in h.decorators)
+                  and bool(self.accept(h)))
+            self._ok[h.qual] = ok
+        return self._ok[h.qual]
+
+    def target(self, caller: Func, e, depth):
+        """The helper a sub-expression stands for: ('call'|'prop', Func) or None."""
+        if depth >= self.max_depth:
+            return None
+        if isinstance(e, ast.Call) and isinstance(e.func, ast.Attribute) and dotted(e.func.value) == 'self':
+            h = self.cls.methods.get(e.func.attr)
+            if h is not None and not h.is_property() and self._inlinable(h) and not any(isinstance(a, ast.Starred) for a in e.args) \
+                    and not any(k.arg is None for k in e.keywords):
+                return ('call', h)
+        elif isinstance(e, ast.Attribute) and isinstance(e.ctx, ast.Load) and dotted(e.value) == 'self':
+            h = self.cls.methods.get(e.attr)
+            if h is not None and h.is_property() and self._inlinable(h):
+                return ('prop', h)
+        return None
+
+    # -- one CFG node of the caller
+    def expand(self, env: Env, caller: Func, node, depth) -> List[Env]:
+        """States in which every helper use of this CFG node has been evaluated (values parked in ghost['inl'] /
+        temporary bindings that `settle` removes again)."""
+        sites = []
+        for own in node.own():
+            for e in unconditional_subexprs(own):
+                t = self.target(caller, e, depth)
+                if t is not None and not any(e is s for s, _t in sites):
+                    # the function part of an inlined call is not a property read
+                    sites.append((e, t))
+        called = {id(e.func) for e, t in sites if t[0] == 'call'}
+        sites = [(e, t) for e, t in sites if id(e) not in called]
+        envs = [env]
+        for e, (kind, h) in sites:
+            nxt = []
+            for cur in envs:
+                for out, val in self.inline(cur, caller, e, kind, h, depth):
+                    if kind == 'call':
+                        out.ghost['inl'] = dict(out.ghost.get('inl', {}), **{str(id(e)): val})
+                    else:
+                        d = dotted(e)
+                        out.vars[d] = val
+                        out.ghost['tmp'] = out.ghost.get('tmp', ()) + (d,)
+                    nxt.append(out)
+            envs = nxt
+        return envs
+
+    @staticmethod
+    def settle(env: Env):
+        for d in env.ghost.pop('tmp', ()):
+            env.vars.pop(d, None)
+        env.ghost.pop('inl', None)
+
+    @staticmethod
+    def value_of(env: Env, call):
+        inl = env.ghost.get('inl')
+        return inl.get(str(id(call))) if inl else None
+
+    # -- the callee
+    def inline(self, env: Env, caller: Func, site, kind, h: Func, depth):
+        params = [a.arg for a in h.node.args.args][1:]
+        defaults = dict(zip(params[len(params) - len(h.node.args.defaults):], h.node.args.defaults)) if h.node.args.defaults else {}
+        bound = {}
+        if kind == 'call':
+            if len(site.args) > len(params):
+                raise UnknownIdiom('%s: too many arguments for %s' % (caller.qual, h.qual))
+            for name, a in zip(params, site.args):
+                bound[name] = env.eval(a)
+            for k in site.keywords:
+                if k.arg not in params or k.arg in bound:
+                    raise UnknownIdiom('%s: cannot bind argument %s of %s' % (caller.qual, k.arg, h.qual))
+                bound[k.arg] = env.eval(k.value)
+        for name in params:
+            if name not in bound:
+                if name not in defaults:
+                    raise UnknownIdiom('%s: argument %s of %s is not supplied' % (caller.qual, name, h.qual))
+                bound[name] = env.eval(defaults[name])
+        self.used.add(h.qual)
+        he = env.fork()
+        saved = {k: v for k, v in he.vars.items() if k.split('.')[0] != 'self'}
+        for k in saved:
+            del he.vars[k]
+        parked = (he.ghost.pop('inl', None), he.ghost.pop('tmp', ()))
+        he.vars.update(bound)
+        mark = len(he.log)
+        cfg = cfg_of(h, self.p)
+        out = []
+        for steps, end in paths_from(cfg, cfg.entry, (), local_edges(cfg)):
+            if end != cfg.exit:
+                continue            # the helper raises: the caller's path ends here
+            for fe in run_steps_inl(he.fork(), cfg, steps, self, depth=depth + 1):
+                tail = fe.log[mark:]
+                if any(k in ('raise', 'yield') for k, _v, _n in tail):
+                    continue
+                rets = [v for k, v, _n in tail if k == 'return']
+                fe.log = fe.log[:mark]
+                fe.vars = dict({k: v for k, v in fe.vars.items() if k.split('.')[0] == 'self'}, **saved)
+                if parked[0] is not None:
+                    fe.ghost['inl'] = parked[0]
+                if parked[1]:
+                    fe.ghost['tmp'] = parked[1]
+                out.append((fe, rets[-1] if rets else NONE))
+        return out
+
+
+def run_steps_inl(env: Env, cfg, steps, inliner: Inliner, on_node=None, depth=0, rewrite=None) -> List[Env]:
+    """`linexpr.run_steps` that looks through helper methods / properties of the class (see Inliner).
+    A `return <comparison>` forks on the outcome, so that a boolean helper carries its facts to the caller.
+    `rewrite(test)` may put a branch condition into an equivalent form the evaluator models."""
+    envs = [env]
+    for (nid, label) in steps:
+        n = cfg.node(nid)
+        nxt = []
+        for e0 in envs:
+            if on_node is not None:
+                on_node(e0, n, label)
+            active = (n.kind == 'stmt' and (label != 'exc' or isinstance(n.ast, ast.Raise))) or (n.kind == 'test' and label in ('T', 'F'))
+            for e in (inliner.expand(e0, cfg.func, n, depth) if active else [e0]):
+                if n.kind == 'stmt':
+                    if active:
+                        if isinstance(n.ast, ast.Return) and n.ast.value is not None and _is_boolish(n.ast.value):
+                            for truth in (True, False):
+                                for e2 in e.assume(n.ast.value, truth):
+                                    e2.log.append(('return', Konst(truth), n.ast))
+                                    inliner.settle(e2)
+                                    nxt.append(e2)
+                            continue
+                        e.exec(n.ast)
+                    inliner.settle(e)
+                    nxt.append(e)
+                elif n.kind == 'test':
+                    outs = e.assume(rewrite(n.ast) if rewrite is not None else n.ast, label == 'T') if label in ('T', 'F') else [e]
+                    for e2 in outs:
+                        inliner.settle(e2)
+                    nxt.extend(outs)
+                elif n.kind == 'iter':
+                    if label == 'next':
+                        e.eval(n.stmt.iter)
+                        e.assign(n.stmt.target, Lin.atom(fresh('item:' + short(n.stmt.target, 30))))
+                    nxt.append(e)
+                else:
+                    nxt.append(e)
+        envs = nxt
+        if not envs:
+            break
+    return envs
